@@ -83,6 +83,19 @@ static void watchdog_fail(const char *what) {
     fprintf(stderr, "WATCHDOG: %s\n", what);
     _exit(3);                                   // infrastructure, not a verdict
 }
+// progress of the script (one tick per executed step); a monitor thread ends the run (exit 3 = infrastructure) when a step
+// does not finish for 150 s, e.g. because a signal handler never returns
+static std::atomic<long> g_progress{0};
+static void start_monitor() {
+    std::thread([] {
+        long last = -1; int idle = 0;
+        for (;;) {
+            std::this_thread::sleep_for(std::chrono::seconds(1));
+            long now = g_progress.load();
+            if (now != last) { last = now; idle = 0; } else if (++idle >= 150) watchdog_fail("no step finished for 150 s");
+        }
+    }).detach();
+}
 struct Latch {
     std::mutex m; std::condition_variable cv; int pending;
     explicit Latch(int n) : pending(n) {}
@@ -240,6 +253,7 @@ static void do_release(int L) {
 static void execute(const json &sc) {
     auto &T = vh::T();
     int n = sc["n"];
+    g_progress.fetch_add(1);
     for (int i = 0; i <= NSIG_T; ++i) g_sent[i] = 0;
     std::string kinds = "[";
     for (int s = 1; s <= NSIG_T; ++s) {
@@ -270,6 +284,7 @@ static void execute(const json &sc) {
     T.printf("{\"e\":\"begin\",\"en\":%s,\"d\":%s}", en_json().c_str(), disp_json().c_str());
 
     for (auto &op : sc["ops"]) {
+        g_progress.fetch_add(1);
         std::string o = op["o"]; int a = op["a"];
         if (o == "raise") {
             if (a < 1 || a > NSIG_T || is_dfl_now(a)) continue;            // the default action would end the process: not raised
@@ -308,6 +323,7 @@ int main(int argc, char **argv) {
     vh::T().open(argv[2]);
     vh::install_faults();
     tbox::verif::Hooks().point = on_point;
+    start_monitor();
     std::ifstream in(argv[1]);
     std::string line;
     while (std::getline(in, line)) {
